@@ -20,9 +20,15 @@ def make_utpm(N, D, P, rng, distinct_base=True, x0=None):
     return a.UTPM(data)
 
 
-def rand_like(u, rng):
+def rand_like(u, rng, pattern='dense', cplx=False):
+    """random polynomial of the shape of u.  pattern: dense | zero0 (order-0 coefficient zero) | last (only the highest order non-zero) | only0"""
     a = A(); d = u.data
     out = numpy.array([native.rnd(rng, -1.0, 1.0, 8) for _ in range(d.size)]).reshape(d.shape)
+    out[out == 0] = 0.125
+    if cplx or numpy.iscomplexobj(d): out = out + 1j * numpy.array([native.rnd(rng, -1.0, 1.0, 8) for _ in range(d.size)]).reshape(d.shape)
+    if pattern == 'zero0' and d.shape[0] > 1: out[0] = 0
+    elif pattern == 'last' and d.shape[0] > 1: out[:-1] = 0
+    elif pattern == 'only0': out[1:] = 0
     return a.UTPM(out)
 
 
@@ -58,13 +64,13 @@ def forward_tangent(prog, x, v):
     return a.UTPM((y1.data - y0.data)[D:].copy()), a.UTPM(y0.data[:D].copy())
 
 
-def adjoint_identity(prog, x, ybar_seed_rng, v, cg=None, fx=None, fy=None):
+def adjoint_identity(prog, x, ybar_seed_rng, v, cg=None, fx=None, fy=None, pattern='dense'):
     """returns (max abs defect of <xbar,v> - <ybar,F'(x)v>, scale, xbar, ybar) using the recorded graph cg"""
     a = A()
     if cg is None: cg, fx, fy = record(prog, x)
     cg.pushforward([x])
     y = cg.dependentFunctionList[0].x
-    ybar = rand_like(y, ybar_seed_rng)
+    ybar = rand_like(y, ybar_seed_rng, pattern)
     ybar_copy = ybar.data.copy()
     cg.pullback([ybar])
     xbar = cg.independentFunctionList[0].xbar
@@ -79,21 +85,26 @@ def classify_record_failure(e):
     return 'record-raises:%s' % type(e).__name__
 
 
-def run_adjoint_corpus(programs, configs, rng, tol=1e-8):
+def run_adjoint_corpus(programs, configs, rng, tol=1e-8, patterns=('dense',)):
     """for every program and (D,P): record on a UTPM, forward, reverse with a random non-symmetric seed that is non-zero at
     all orders, and compare with forward propagation alone.  returns list of outcome dicts."""
     out = []
     for p in programs:
+      for pattern in patterns:
         for (D, P) in configs:
+            if pattern != 'dense' and D == 1: continue
             N = p.N
             x = make_utpm(N, D, P, rng); v = rand_like(x, rng)
-            o = {'program': p.name, 'D': D, 'P': P, 'status': 'ok', 'detail': '', 'desc': p.describe(), 'x': x.data.tolist(), 'v': v.data.tolist()}
+            if pattern == 'special-point':          # base point at a stationary / special value of many ops (0 and 1), higher coefficients generic
+                x.data[0] = numpy.array([0.0, 1.0, 0.0, 1.0][:N])[None, :]
+            o = {'program': p.name, 'D': D, 'P': P, 'status': 'ok', 'detail': '', 'desc': p.describe(), 'x': x.data.tolist(), 'v': v.data.tolist(), 'seed_pattern': pattern}
             try:
                 cg, fx, fy = record(p, x)
             except Exception as e:
                 o['status'] = 'record-raises'; o['detail'] = '%s: %s' % (type(e).__name__, str(e).strip().splitlines()[-1][:160] if str(e).strip() else ''); out.append(o); continue
             try:
-                err, scale, xbar, ybar, lr, seed_ok = adjoint_identity(p, x, rng, v, cg, fx, fy)
+                err, scale, xbar, ybar, lr, seed_ok = adjoint_identity(p, x, rng, v, cg, fx, fy, pattern if pattern != 'special-point' else 'dense')
+                if not numpy.isfinite(err): continue
             except Exception as e:
                 msg = str(e)
                 missing = ("has no attribute 'pb_" in msg)
@@ -236,7 +247,18 @@ def driver_contract(prog_scalar, prog_vector, rng, rec_kinds=('ndarray', 'utpm2'
 
 # ------------------------------------------------------------------------------------------------------------------
 # C06: histories
-def history_contract(prog, rng, length, tol=1e-12):
+SCENARIOS = [
+    ['fwd', 'rev', 'rev', 'rev'],                                   # the documented pattern: several sweeps after one forward evaluation
+    ['fwd', 'rev', 'fwd_c', 'rev', 'fwd_same_DP', 'rev'],           # real -> complex -> real with identical (D,P)
+    ['fwd_c', 'rev', 'fwd_same_DP', 'rev'],
+    ['fwd', 'rev', 'fwd', 'rev', 'fwd_same_DP', 'rev', 'rev'],      # changing (D,P), then repeating it
+    ['driver', 'fwd', 'rev', 'driver', 'rev_skip'],
+    ['fwd_nd', 'fwd', 'rev', 'second_graph', 'rev', 'fwd_nd', 'fwd_same_DP', 'rev'],
+    ['fwd', 'second_graph', 'rev', 'repeat', 'repeat'],
+]
+
+
+def history_contract(prog, rng, length, tol=1e-12, script=None):
     """a random history of calls on ONE recorded graph; every call's result is compared with the same call on a freshly
     recorded graph (so the expected value is a function of the call's arguments only).  returns (failures, n_calls, trace)"""
     a = A(); N = prog.N; fails = []; trace = []
@@ -246,14 +268,21 @@ def history_contract(prog, rng, length, tol=1e-12):
     sc = prog.out_shape() == ()
     last_fwd = None; n = 0
     other = progs.Program(N, [(1, 'sin', (0,), {}), (2, 'mul', (1, 0), {})], 'other')
-    kinds = ['fwd', 'rev', 'rev', 'driver', 'fwd_nd', 'second_graph', 'repeat']
+    kinds = ['fwd', 'rev', 'rev', 'driver', 'fwd_nd', 'second_graph', 'repeat', 'fwd_c', 'fwd_same_DP']
     prev = None
-    for step in range(length):
-        k = rng.choice(kinds)
+    for step in range(length if script is None else len(script)):
+        k = rng.choice(kinds) if script is None else script[step]
+        if k == 'rev_skip': continue
         if k == 'rev' and last_fwd is None: k = 'fwd'
         if k == 'repeat' and prev is None: k = 'fwd'
         if k == 'repeat': k, args = prev
         elif k == 'fwd': args = (make_utpm(N, rng.choice([1, 2, 3]), rng.choice([1, 2]), rng),)
+        elif k == 'fwd_c':          # complex coefficients, same (D,P) as the previous forward evaluation if there was one
+            D_, P_ = (last_fwd.data.shape[:2] if last_fwd is not None else (2, 1))
+            u = make_utpm(N, D_, P_, rng); args = (a.UTPM(u.data + 1j * rand_like(u, rng).data * 0.25),); k = 'fwd'
+        elif k == 'fwd_same_DP':
+            D_, P_ = (last_fwd.data.shape[:2] if last_fwd is not None else (2, 1))
+            args = (make_utpm(N, D_, P_, rng),); k = 'fwd' 
         elif k == 'fwd_nd': args = (numpy.array([native.rnd(rng, 0.25, 1.0) for _ in range(N)]),)
         elif k == 'rev': args = (rng.random(),)
         elif k == 'driver':
